@@ -191,3 +191,4 @@ def replay(ob, reg):
     if c is None or not ob.func.startswith('TcpConnection.'):
         return {'reproduced': False, 'replay': 'no factory for %s' % ob.func}
     return R.run_case(R.case_from_obl(ob, c, 'tcpconn'))
+
